@@ -111,7 +111,7 @@ def safe_to(case):
     if a["dt"].startswith("float") and to in gen.INT_DT:
         lo, hi = gen.int_range(to)
         for v in a["vals"]:
-            if v != v or not (lo < v < hi) or abs(v) >= 2.0**63:
+            if v != v or not (lo < v < hi) or (abs(v) >= 2.0**63 and not (to == "uint64" and 0 < v < 2.0**64)):
                 return a["dt"]
     return to
 
@@ -138,7 +138,7 @@ def body_build(case, ctx):
 
 @st.composite
 def build_case(draw, tier):
-    a = draw(gen.ragged(tier))
+    a = draw(gen.ragged(tier, wide=True))
     return {"a": a, "route": draw(st.sampled_from(ROUTES)), "to": draw(st.sampled_from(gen.ALL_DT))}
 
 
